@@ -760,15 +760,34 @@ func c15Judge(self, dir string, doc map[string]any, client bool, cli string, via
 		switch {
 		case strings.Contains(stderr, "stack overflow") || strings.Contains(stderr, "stack exceeds"):
 			site = "stack-overflow"
+			// the frame at which the stack ran out is an arbitrary member (or leaf) of the
+			// recursion: name the recursion by the goag function that recurs most often
+			// (template execution if it is part of the cycle)
+			counts := map[string]int{}
 			for _, l := range strings.Split(stderr, "\n") {
-				if strings.Contains(l, "github.com/vkd/goag/") && !strings.Contains(l, "inproc") {
+				if strings.Contains(l, "github.com/vkd/goag/") && !strings.Contains(l, "inproc") && !strings.HasPrefix(l, "\t") {
 					fn := strings.TrimSpace(l)
-					if j := strings.Index(fn, "("); j > 0 {
-						fn = fn[:j]
+					// (the argument list starts at the first parenthesis that does not follow a dot: generator.(*T).M(0x..))
+					for j := 1; j < len(fn); j++ {
+						if fn[j] == '(' && fn[j-1] != '.' {
+							fn = fn[:j]
+							break
+						}
 					}
-					site += ":" + strings.TrimPrefix(fn, "github.com/vkd/goag/")
-					break
+					counts[strings.TrimPrefix(fn, "github.com/vkd/goag/")]++
 				}
+			}
+			best := ""
+			for fn, n := range counts {
+				if best == "" || n > counts[best] || (n == counts[best] && fn < best) {
+					best = fn
+				}
+			}
+			if counts["generator.ExecuteTemplate"] >= 8 {
+				best = "generator.ExecuteTemplate"
+			}
+			if best != "" {
+				site += ":" + best
 			}
 			if strings.Contains(stderr, "kin-openapi") && !strings.Contains(stderr, "github.com/vkd/goag/") {
 				return c15Verdict{Class: "loader-rejected", Detail: "loader overflowed the stack"}
